@@ -70,12 +70,23 @@ def parseData (w : String) : Option Bytes :=
     | _ => none
   else bytesOfHex w
 
+def hexNat (w : String) : Option Nat :=
+  if w.isEmpty then none else w.toList.foldlM (fun a c => (hexVal c).map (a * 16 + ·)) 0
+
+/-- dotted IPv4, or IPv6 as eight colon separated hex groups (no compression) -/
 def parseIP (w : String) : Option Bytes := do
-  let ps := w.splitOn "."
-  if ps.length != 4 then none
-  let ns ← ps.mapM (·.toNat?)
-  if ns.any (· > 255) then none
-  some (ns.map UInt8.ofNat)
+  if w.contains ':' then
+    let ps := w.splitOn ":"
+    if ps.length != 8 then none
+    let ns ← ps.mapM hexNat
+    if ns.any (· > 65535) then none
+    some (ns.flatMap fun n => [UInt8.ofNat (n / 256), UInt8.ofNat (n % 256)])
+  else
+    let ps := w.splitOn "."
+    if ps.length != 4 then none
+    let ns ← ps.mapM (·.toNat?)
+    if ns.any (· > 255) then none
+    some (ns.map UInt8.ofNat)
 
 structure CConn where
   ip : Bytes × Bytes
@@ -89,12 +100,32 @@ def sel {β} (p : β × β) (d : Nat) : β := if d == 0 then p.1 else p.2
 inductive Pkt
   | t (c d so n : Nat) (syn ack fin : Bool)
   | f (c d id foff : Nat) (mf : Bool) (body : Bytes)
+deriving Inhabited
+
+/-- a packet with the link type of the interface it was written on and the link type fq uses for it -/
+structure FPkt where
+  p : Pkt
+  link : String
+  fqLink : Option String
 
 structure Case where
   fmt : String
-  links : List String
   conns : Array CConn
-  pkts : List Pkt
+  secs : List (List String × List Pkt)    -- the file's sections: link types of the interfaces, packets
+
+def Case.ng (k : Case) : Bool := k.fmt.startsWith "pcapng"
+def Case.lengthGiven (k : Case) : Bool := !k.ng || (k.fmt.splitOn "_len").length > 1
+
+/-- the sections as fq forms them (`fqSectioning`), every packet with its real and its fq link type
+    (`fqInterfaceLink`); packet i of a file section is on interface i mod (number of interfaces) -/
+def Case.fqSections (k : Case) : List (List FPkt) :=
+  let links := k.secs.map (·.1)
+  let fileSecs := (List.range k.secs.length).map fun si =>
+    let (ls, ps) := k.secs[si]!
+    (List.range ps.length).map fun i =>
+      let j := i % ls.length
+      (⟨ps[i]!, ls[j]!, fqInterfaceLink k.lengthGiven links si j⟩ : FPkt)
+  fqSectioning k.lengthGiven fileSecs
 
 def parseDir (w : String) : Option Nat := if w == "a" then some 0 else if w == "b" then some 1 else none
 
@@ -134,19 +165,41 @@ partial def parseConns (ws : List String) (acc : Array CConn) : Option (Array CC
   | "P" :: rest => some (acc, rest)
   | _ => none
 
+def parseLinks (w : String) : Option (List String) :=
+  let links := w.splitOn "+"
+  if links.isEmpty || links.any (fun l => (linkSpec l).isNone) then none else some links
+
+def knownFormats : List String :=
+  ["pcap_le", "pcap_be", "pcap_le_ns", "pcap_be_ns", "pcapng_le", "pcapng_be", "pcapng_le_len", "pcapng_be_len",
+   "pcapng_le_len_big", "pcapng_be_len_big"]
+
 def parseCase (op : String) : Option Case :=
   match (words op).filter (fun w => !w.startsWith "@") with
   | "cap" :: fmt :: links :: rest => do
+    if !knownFormats.contains fmt then none
+    let links ← parseLinks links
     let (conns, ps) ← parseConns rest #[]
-    let pkts ← ps.mapM (parsePkt conns.size)
-    let links := links.splitOn "+"
-    if links.isEmpty || links.any (fun l => (linkSpec l).isNone) then none
-    -- every T packet must lie inside the data its sender sent
-    let ok := pkts.all fun p => match p with
-      | .t c d so n _ _ _ => n == 0 || (so ≥ 1 && so - 1 + n ≤ (sel conns[c]!.data d).length)
-      | _ => true
-    if !ok then none
-    some ⟨fmt, links, conns, pkts⟩
+    -- split the packet words into sections at `N` / `N=<links>`
+    let mut secs : Array (List String × List Pkt) := #[]
+    let mut cur : List Pkt := []
+    let mut curLinks := links
+    for w in ps do
+      if w == "N" || w.startsWith "N=" then
+        if !fmt.startsWith "pcapng" then none
+        secs := secs.push (curLinks, cur.reverse)
+        cur := []
+        curLinks ← if w == "N" then some links else parseLinks (w.drop 2).toString
+      else
+        let p ← parsePkt conns.size w
+        -- every T packet must lie inside the data its sender sent; fragments only of IPv4 connections
+        let ok := match p with
+          | .t c d so n _ _ _ => n == 0 || (so ≥ 1 && so - 1 + n ≤ (sel conns[c]!.data d).length)
+          | .f c _ _ _ _ _ => conns[c]!.ip.1.length == 4
+        if !ok then none
+        cur := p :: cur
+    secs := secs.push (curLinks, cur.reverse)
+    if conns.any (fun c => c.ip.1.length != c.ip.2.length) then none
+    some ⟨fmt, conns, secs.toList⟩
   | _ => none
 
 /-! ### replay of the packet list: defragmentation, TCP segments -/
@@ -213,48 +266,46 @@ def tcpOf (conns : Array CConn) (src dst : Bytes) (p : Bytes) : Option Ev := do
 abbrev FragKey := Bytes × Bytes × Nat
 
 structure Replay where
-  groups : List (FragKey × List (Frag UInt8)) := []
-  evsRef : Array Ev := #[]     -- reference world: every completed datagram counts
-  evsFq : Array Ev := #[]      -- fq model: datagrams failing `acceptReassembled` are lost
+  groups : FragGroups FragKey UInt8 := []
+  evsRef : Array Ev := #[]     -- reference world: every packet of the capture counts
+  evsFq : Array Ev := #[]      -- fq model: packets the dispatch table / interface table do not hand to the right decoder are lost
   done : Array Done := #[]
   unseen : Nat := 0            -- packets on an interface whose link type the dispatch table does not serve as specified
+  misdecoded : Nat := 0        -- packets for which fq uses another interface's link type (known finding pcapng-shb-section)
 
-def replay (k : Case) : Replay := Id.run do
+def replay (conns : Array CConn) (pkts : List FPkt) : Replay := Id.run do
   let mut r : Replay := {}
-  let mut i := 0
-  for p in k.pkts do
-    let link := k.links[i % k.links.length]!
-    i := i + 1
-    let served := match linkSpec link with
+  for fp in pkts do
+    let right := fp.fqLink == some fp.link
+    let served := right && match linkSpec fp.link with
       | some (num, dec) => linkToDecodeFn num == some dec
       | none => false
-    match p with
+    if !right then r := { r with misdecoded := r.misdecoded + 1 }
+    else if !served then r := { r with unseen := r.unseen + 1 }
+    match fp.p with
     | .t c d so n syn ack fin =>
-      let cc := k.conns[c]!
+      let cc := conns[c]!
       let data := if n == 0 then [] else ((sel cc.data d).drop (so - 1)).take n
       let ev : Ev := ⟨c, d, so, data, syn, ack, fin⟩
       r := { r with evsRef := r.evsRef.push ev }
-      if served then r := { r with evsFq := r.evsFq.push ev } else r := { r with unseen := r.unseen + 1 }
+      if served then r := { r with evsFq := r.evsFq.push ev }
     | .f c d id foff mf body =>
-      let cc := k.conns[c]!
+      let cc := conns[c]!
       let src := sel cc.ip d
       let dst := sel cc.ip (1 - d)
-      let key : FragKey := (src, dst, id)
-      let old := (r.groups.lookup key).getD []
-      let grp := old ++ [⟨foff, mf, body⟩]
-      match defragGroup grp with
-      | none => r := { r with groups := (key, grp) :: r.groups.filter (fun g => g.1 != key) }
-      | some payload =>
-        let lastLen := 20 + body.length
+      -- the reference defragmenter of the model, one step (`defragStep`): order of completion
+      let (groups, out) := defragStep r.groups (src, dst, id) ⟨foff, mf, body⟩
+      r := { r with groups }
+      match out with
+      | none => pure ()
+      | some (_, payload, _) =>
         let acc := acceptReassembled true true     -- a fragment, and it completed the datagram
-        r := { r with groups := r.groups.filter (fun g => g.1 != key),
-                      done := r.done.push ⟨src, dst, id, payload, lastLen, acc && served⟩ }
-        match tcpOf k.conns src dst payload with
+        r := { r with done := r.done.push ⟨src, dst, id, payload, 20 + body.length, acc && served⟩ }
+        match tcpOf conns src dst payload with
         | none => pure ()
         | some ev =>
           r := { r with evsRef := r.evsRef.push ev }
           if acc && served then r := { r with evsFq := r.evsFq.push ev }
-      if !served then r := { r with unseen := r.unseen + 1 }
   return r
 
 /-- `Accept` (= TCPSimpleFSM.CheckState) over the TCP segments that reach the assembler: the accepted ones, and
@@ -325,13 +376,29 @@ structure Call where
   data : Bytes
   flushed : Bool
 
+structure ObsSec where
+  conns : Array (ODir × ODir) := #[]
+  reasm : Array String := #[]
+  calls : Array Call := #[]
+deriving Inhabited
+
 structure Obs where
   format : String
-  sections : Nat
-  conns : Array (ODir × ODir)
-  reasm : Array String
+  facts : List (Nat × Nat)       -- pcapng: (length of the SHB, length of the last block) per file section
+  secs : Array ObsSec            -- what fq reported, per section
   traced : String
-  calls : Array Call
+  traceSecs : Array (Array Call) -- the recorded calls, per section of the traced run
+
+def parseFacts (w : String) : Option (List (Nat × Nat)) :=
+  if w == "B=-" then some []
+  else if !w.startsWith "B=" then none
+  else ((w.drop 2).toString.splitOn ",").mapM fun p =>
+    match p.splitOn ":" with
+    | [a, b] => do
+      let a ← a.toNat?
+      let b ← b.toNat?
+      some (a, b)
+    | _ => none
 
 def parseBool01 (w : String) : Option Bool := if w == "1" then some true else if w == "0" then some false else none
 
@@ -379,31 +446,42 @@ def parseCall (k : Case) (flushed : Bool) (w : String) : Option Call :=
 partial def parseObsBody (k : Case) (ws : List String) (o : Obs) : Option Obs :=
   match ws with
   | [] => none
-  | "S" :: rest => parseObsBody k rest { o with sections := o.sections + 1 }
+  | "S" :: rest => parseObsBody k rest { o with secs := o.secs.push {} }
   | "K" :: rest =>
-    if rest.length < 12 then none else do
+    if rest.length < 12 || o.secs.isEmpty then none else do
       let c ← parseODir (rest.take 6)
       let s ← parseODir ((rest.drop 6).take 6)
-      parseObsBody k (rest.drop 12) { o with conns := o.conns.push (c, s) }
-  | "R" :: d :: rest => parseObsBody k rest { o with reasm := o.reasm.push d }
+      parseObsBody k (rest.drop 12) { o with secs := o.secs.modify (o.secs.size - 1) fun x => { x with conns := x.conns.push (c, s) } }
+  | "R" :: d :: rest =>
+    if o.secs.isEmpty then none
+    else parseObsBody k rest { o with secs := o.secs.modify (o.secs.size - 1) fun x => { x with reasm := x.reasm.push d } }
   | t :: "X" :: rest =>
     if !t.startsWith "T=" then none else do
       let mut flushed := false
       let mut calls : Array Call := #[]
+      let mut secs : Array (Array Call) := #[]
       for w in rest do
         if w == "flush" then
           if flushed then none
           flushed := true
+        else if w == "N" then
+          -- every section is flushed exactly once, at its end
+          if !flushed then none
+          secs := secs.push calls
+          calls := #[]
+          flushed := false
         else
           let c ← parseCall k flushed w
           calls := calls.push c
       if !flushed then none
-      some { o with traced := (t.drop 2).toString, calls }
+      some { o with traced := (t.drop 2).toString, traceSecs := secs.push calls }
   | _ => none
 
 def parseObs (k : Case) (obs : String) : Option Obs :=
   match words obs with
-  | "fq" :: fmt :: rest => parseObsBody k rest ⟨fmt, 0, #[], #[], "", #[]⟩
+  | "fq" :: fmt :: facts :: rest => do
+    let facts ← parseFacts facts
+    parseObsBody k rest ⟨fmt, facts, #[], "", #[]⟩
   | _ => none
 
 /-! ### the model of fq's part, run on the recorded calls -/
@@ -413,7 +491,7 @@ def parseObs (k : Case) (obs : String) : Option Obs :=
 instance : Inhabited (Conn UInt8) := ⟨{}⟩
 
 def connOrder (evs : Array Ev) : Array (Nat × Nat) :=
-  evs.foldl (fun acc e => if acc.any (fun p => p.1 == e.c) then acc else acc.push (e.c, e.d)) #[]
+  (firstSeen (evs.toList.map fun e => (e.c, e.d))).toArray
 
 def modelConns (k : Case) (order : Array (Nat × Nat)) (calls : Array Call) : Option (Array (Conn UInt8)) := do
   let mut conns : Array (Conn UInt8) := order.map fun (c, d) =>
@@ -452,11 +530,8 @@ def Findings.fail (f : Findings) (why : String) (inWrap : Bool) : Findings :=
 def Findings.div (f : Findings) (why : String) : Findings := { f with diverge := f.diverge ++ [why] }
 
 /-- the property predicate: fq's report against the SENT data and the reference computed from `evs` -/
-def predicate (k : Case) (o : Obs) (evs : Array Ev) (dones : List Done) (order : Array (Nat × Nat)) : Findings := Id.run do
+def predicate (k : Case) (o : ObsSec) (evs : Array Ev) (dones : List Done) (order : Array (Nat × Nat)) : Findings := Id.run do
   let mut f : Findings := {}
-  if o.format != (if k.fmt.startsWith "pcapng" then "pcapng" else "pcap") then
-    f := f.fail s!"format {o.format}" false
-  if o.sections != 1 then f := f.fail s!"sections {o.sections}" false
   if o.conns.size != order.size then
     f := f.fail s!"connections reported {o.conns.size} captured {order.size}" false
   let mut seen : List Nat := []
@@ -499,18 +574,27 @@ def predicate (k : Case) (o : Obs) (evs : Array Ev) (dones : List Done) (order :
     f := f.fail s!"ipv4_reassembled has {o.reasm.size} datagrams, reference {expectR.length}" false
   return f
 
-def stepCap (k : Case) (o : Obs) : String := Id.run do
-  let r := replay k
+structure SecResult where
+  refF : Findings
+  fqF : Findings
+  dv : List String
+  dropped : Nat
+  fsmRejected : Nat
+  misdecoded : Nat
+
+/-- one flows section: fq's report `o` for it and the calls recorded for it against the section's packets -/
+def stepSection (k : Case) (pkts : List FPkt) (o : ObsSec) (calls : Array Call) : SecResult := Id.run do
+  let r := replay k.conns pkts
   let refF := predicate k o r.evsRef r.done.toList (connOrder r.evsRef)
-  let dropped := r.done.toList.filter (fun d => !d.accepted)
-  -- the same predicate in the world of the fq model (datagrams failing fq's completion test are lost)
+  let dropped := (r.done.toList.filter (fun d => !d.accepted)).length
+  -- the same predicate in the world of the fq model (segments rejected by Accept, packets decoded with the wrong
+  -- link type are lost)
   let (evsFq, fsmRejected) := fsmFilter r.evsFq
   let fqF := predicate k o evsFq (r.done.toList.filter (·.accepted)) (connOrder r.evsFq)
   -- model of fq's own part on the recorded calls
   let mut dv : List String := fqF.diverge
-  if o.traced != "same" then dv := dv ++ [s!"traced-decoder-state-{o.traced}"]
   let order := connOrder r.evsFq
-  match modelConns k order o.calls with
+  match modelConns k order calls with
   | none => dv := dv ++ ["trace names a connection the model does not have"]
   | some conns =>
     if conns.size != o.conns.size then dv := dv ++ [s!"model has {conns.size} connections"]
@@ -526,7 +610,7 @@ def stepCap (k : Case) (o : Obs) : String := Id.run do
       for s2c in [false, true] do
         let d := if s2c then 1 - first else first
         let rf := dirRef k evsFq ci d
-        let chunks := o.calls.toList.filter fun c => c.conn == i && c.s2c == s2c
+        let chunks := calls.toList.filter fun c => c.conn == i && c.s2c == s2c
         if !(rf.wraps && !rf.clean) then
           if !interfaceOK (sel k.conns[ci]!.data d) rf.base chunks then
             dv := dv ++ [s!"interface-assumption (Delivers/FlushOnlyAtEnd) violated by the recorded calls of connection {i} {if s2c then "s2c" else "c2s"}"]
@@ -540,17 +624,57 @@ def stepCap (k : Case) (o : Obs) : String := Id.run do
             dv := dv ++ [s!"interface-assumption (flushes) connection {i} {if s2c then "s2c" else "c2s"}"]
   let modelR := (r.done.toList.filter (·.accepted)).map fun d => blob (datagram d.src d.dst d.id d.payload)
   if modelR != o.reasm.toList then dv := dv ++ [s!"ipv4_reassembled model has {modelR.length}"]
+  return ⟨refF, fqF, dv, dropped, fsmRejected, r.misdecoded⟩
+
+def Findings.merge (a b : Findings) : Findings :=
+  ⟨a.propfail ++ b.propfail, a.wrapOnly && b.wrapOnly, a.diverge ++ b.diverge⟩
+
+/-- known finding `pcapng-section-length`: a given section_length and a section whose last block is not longer
+    than its section header block (`sectionEndsEarly`) -/
+def endsEarlyClass (k : Case) (facts : List (Nat × Nat)) : Bool :=
+  k.ng && k.lengthGiven && facts.any fun (shb, last) => sectionEndsEarly shb last
+
+def stepCap (k : Case) (o : Obs) : String := Id.run do
+  let secs := k.fqSections
+  let early := endsEarlyClass k o.facts
+  let mut refF : Findings := {}
+  let mut fqF : Findings := {}
+  let mut dv : List String := []
+  let mut dropped := 0
+  let mut fsmRejected := 0
+  let mut misdecoded := 0
+  if o.format != (if k.ng then "pcapng" else "pcap") then refF := refF.fail s!"format {o.format}" false
+  if o.traced != "same" then dv := dv ++ [s!"traced-decoder-state-{o.traced}"]
+  if o.secs.size != secs.length || o.traceSecs.size != secs.length then
+    dv := dv ++ [s!"sections: fq reports {o.secs.size}, traced {o.traceSecs.size}, model {secs.length}"]
+  else
+    for i in [0:secs.length] do
+      let r := stepSection k secs[i]! o.secs[i]! o.traceSecs[i]!
+      let tag := fun (l : List String) => if secs.length == 1 then l else l.map fun w => s!"section {i}: {w}"
+      refF := refF.merge { r.refF with propfail := tag r.refF.propfail }
+      fqF := fqF.merge { r.fqF with propfail := tag r.fqF.propfail }
+      dv := dv ++ tag r.dv
+      dropped := dropped + r.dropped
+      fsmRejected := fsmRejected + r.fsmRejected
+      misdecoded := misdecoded + r.misdecoded
   let suffix := match dv with
     | [] => ""
     | w :: _ => s!" ;DIVERGE model={w}"
   if refF.propfail.isEmpty then
     match dv with
     | [] => return "OK"
-    | w :: _ => return s!"DIVERGE model={w}"
-  -- known finding fsm-reorder: the failures disappear when the segments `Accept` rejects are taken out.
+    | w :: _ =>
+      if early then return s!"KNOWN pcapng-section-length a section's last block is not longer than its section header block ({w})"
+      return s!"DIVERGE model={w}"
+  if early then
+    return s!"KNOWN pcapng-section-length a section's last block is not longer than its section header block ({refF.propfail.head!})"
+  -- known findings fsm-reorder / pcapng-shb-section: the failures disappear when the segments `Accept` rejects and
+  -- the packets decoded with another section's link type are taken out.
   -- (a datagram the model of packet() does not accept is NOT excused: `defrag-length` is fixed)
-  if fsmRejected > 0 && dropped.isEmpty then
+  if (fsmRejected > 0 || misdecoded > 0) && dropped == 0 then
     if fqF.propfail.isEmpty then
+      if misdecoded > 0 then
+        return s!"KNOWN pcapng-shb-section {misdecoded} packet(s) of a later section decoded with the link type of an earlier section's interface ({refF.propfail.head!}){suffix}"
       return s!"KNOWN fsm-reorder {fsmRejected} segment(s) with data/SYN/FIN rejected by Accept (TCPSimpleFSM) ({refF.propfail.head!}){suffix}"
     else if fqF.wrapOnly then
       return s!"KNOWN seq-wrap {fqF.propfail.head!}{suffix}"
@@ -570,7 +694,15 @@ def stepC19 (op obs : String) : String :=
   else match parseCase op with
   | none => "BADOP op"
   | some k =>
-    if obs.startsWith "err:" then s!"PROPFAIL fq-failed {obs}"
+    if obs.startsWith "err:" then
+      match words obs with
+      | [e, facts] =>
+        match parseFacts facts with
+        | some fs =>
+          if endsEarlyClass k fs then s!"KNOWN pcapng-section-length fq fails ({e}): a section's last block is not longer than its section header block"
+          else s!"PROPFAIL fq-failed {e}"
+        | none => "BADOP obs"
+      | _ => "BADOP obs"
     else match parseObs k obs with
     | none => "BADOP obs"
     | some o => stepCap k o
